@@ -458,10 +458,16 @@ where
     fn sample(&mut self) -> usize {
         let r: T = self.rng.random();
         let mut cum: T = T::zero();
-        let mut k = self.probs.len() - 1;
+        // Fallback (rounding can leave the total slightly below `r`): the last category
+        // that has positive probability.
+        let mut k = self
+            .probs
+            .iter()
+            .rposition(|&p| p > T::zero())
+            .unwrap_or(self.probs.len() - 1);
         for (i, &p) in self.probs.iter().enumerate() {
             cum += p;
-            if r <= cum {
+            if r < cum {
                 k = i;
                 break;
             }
